@@ -160,6 +160,9 @@ def fam_expr_fixed():
         add(f"cmpk-{op}", [["sig", "o", ["cmp", op, A, K(7)]]])
         add(f"cond-{op}", [["sig", "o", ["cond", ["cmp", op, A, K(7)], C]]])
         add(f"condk-{op}", [["sig", "o", ["proj", ["cond", ["cmp", op, A, B], K(42)], "signal-X"]]])
+    for kv in (0, -1, 1, 7):
+        add(f"condconst-{kv}", [["sig", "o", ["proj", ["bin", "+", ["cond", ["cmp", ">", A, K(3)], K(kv)], B], "signal-X"]]])
+        add(f"condconst-intvar-{kv}", [["int", "k", K(kv)], ["sig", "o", ["proj", ["bin", "+", ["cond", ["cmp", ">", A, K(3)], V("k")], B], "signal-X"]]])
     add("and", [["sig", "o", ["proj", ["and", ["cmp", ">", A, K(0)], ["cmp", "<", B, K(9)]], "signal-X"]]])
     add("or", [["sig", "o", ["proj", ["or", ["cmp", ">", A, K(0)], ["cmp", "<", B, K(9)]], "signal-X"]]])
     add("andw", [["sig", "o", ["proj", ["andw", A, B], "signal-X"]]])
@@ -594,6 +597,17 @@ def fam_loop_fixed():
         progs.append(_loop_prog(f"lfixed-reader-before-{nm}", pre + [["write", "m", wr, None]], fam="fixed"))
         progs.append(_loop_prog(f"lfixed-reader-before-{nm}-const", pre + [["write", "m", ["bin", "+", V("cur") if nm == "shared-cur" else R, K(1)], None]], fam="fixed"))
         progs.append(_loop_prog(f"lfixed-reader-before-{nm}-chain", pre + [["write", "m", ["bin", "%", ["bin", "+", V("cur") if nm == "shared-cur" else R, K(1)], K(10)], None]], fam="fixed"))
+    # the written value takes its type from an UNTYPED signal on the left of the last step
+    uin = M_INPUTS[:2] + [("ku", None, 10061)]
+    for nm, wr in (("untyped-left-add", ["bin", "+", V("ku"), R]), ("untyped-left-sub", ["bin", "-", V("ku"), R]), ("untyped-left-chain", ["bin", "%", ["bin", "+", ["bin", "*", V("ku"), R], K(1)], K(101)]), ("untyped-right", ["bin", "+", R, V("ku")])):
+        progs.append(_loop_prog(f"lfixed-{nm}", [["write", "m", wr, None]], fam="fixed", inputs=uin))
+    # a combinator-produced value on the cell's own signal, declared before the write, entering the first step
+    for nm, wr in (("typed-before-add-mod", ["bin", "%", ["bin", "+", R, V("tb")], K(50)]), ("typed-before-sub", ["bin", "*", ["bin", "-", V("tb"), R], K(1)]), ("typed-before-3", ["bin", "%", ["bin", "*", ["bin", "+", R, V("tb")], K(3)], K(97)])):
+        progs.append(_loop_prog(f"lfixed-{nm}", [["sig", "tb", ["proj", ["bin", "*", X, K(2)], "signal-M"]], ["write", "m", wr, None]], fam="fixed"))
+        progs[-1]["params"]["warmup"] = 3
+        progs.append(_loop_prog(f"lfixed-{nm}-after", [["write", "m", wr, None]], fam="fixed"))
+        progs[-1]["stmts"].insert(2, ["sig", "tb", ["proj", ["bin", "*", X, K(2)], "signal-M"]])
+        progs[-1]["params"]["warmup"] = 3
     # two-stage loops with several further consumers of the loop output
     add("two-stage-many-readers", [["sig", "s1", ["bin", "+", R, K(1)]], ["sig", "s2", ["bin", "%", V("s1"), K(10)]], ["write", "m", V("s2"), None], ["sig", "u1", ["proj", ["bin", "*", V("s2"), K(2)], "signal-U"]], ["sig", "u2", ["proj", ["bin", "+", V("s2"), K(7)], "signal-V"]]])
     return progs
@@ -684,6 +698,20 @@ def fam_latch_fixed():
         progs.append(_latch_prog(f"qfixed-{order}-bool-both-celltype", K(1), CL, CL2, order, ["cl", "cl2"], bools=("cl", "cl2"), fam="fixed"))
         progs.append(_latch_prog(f"qfixed-{order}-value-and-reset-celltype", CL2, ["cmp", ">", T, K(5)], ["cmp", ">", CL, K(3)], order, ["t", "cl", "cl2"], fam="fixed"))
         progs.append(_latch_prog(f"qfixed-{order}-inl-on-celltype", K(1), ["cmp", "<", CL, K(20)], ["cmp", ">=", CL, K(80)], order, ["cl"], fam="fixed"))
+        # a latch next to duplicated sub-expressions (CSE active), and next to same-typed siblings (colouring order)
+        c = _latch_prog(f"qfixed-{order}-with-cse-dups", K(1), ["cmp", "<", T, K(20)], ["cmp", ">=", T, K(80)], order, ["t", "u"], fam="fixed")
+        c["stmts"] += [["sig", "d1", ["proj", ["bin", "+", ["bin", "*", U, K(2)], K(1)], "signal-X"]], ["sig", "d2", ["proj", ["bin", "-", ["bin", "*", U, K(2)], K(1)], "signal-Y"]]]
+        progs.append(c)
+        c = _latch_prog(f"qfixed-{order}-with-cse-dups-v5", K(5), ["cmp", "<", T, K(20)], ["cmp", ">=", T, K(80)], order, ["t", "u"], fam="fixed")
+        c["stmts"] += [["sig", "d1", ["proj", ["bin", "+", ["bin", "*", T, K(2)], K(1)], "signal-X"]], ["sig", "d2", ["proj", ["bin", "-", ["bin", "*", T, K(2)], K(1)], "signal-Y"]]]
+        progs.append(c)
+        sib = [["input", "t", "signal-T", 10007], ["input", "y", "signal-T", 10009], ["input", "w", "signal-T", 10037]]
+        c = _latch_prog(f"qfixed-{order}-same-typed-siblings", K(1), ["cmp", "<", T, K(20)], ["cmp", ">=", T, K(80)], order, [], fam="fixed")
+        c["stmts"] = sib + c["stmts"] + [["sig", "d1", ["proj", ["bin", "-", T, V("y")], "signal-X"]], ["sig", "d2", ["proj", ["bin", "-", V("w"), V("y")], "signal-Y"]]]
+        progs.append(c)
+        c = _latch_prog(f"qfixed-{order}-same-typed-siblings-2", K(1), ["cmp", ">", T, K(50)], ["cmp", "<", T, K(10)], order, [], fam="fixed")
+        c["stmts"] = sib + c["stmts"] + [["sig", "d1", ["proj", ["bin", "+", T, V("y")], "signal-X"]], ["sig", "d2", ["proj", ["bin", "+", V("w"), V("y")], "signal-Y"]], ["sig", "d3", ["proj", ["bin", "*", V("w"), T], "signal-Z"]]]
+        progs.append(c)
         progs.append(_latch_prog(f"qfixed-{order}-item-type", K(1), ["cmp", "<", T, K(20)], ["cmp", ">=", T, K(80)], order, ["t"], mtype="iron-plate", fam="fixed"))
     return progs
 
@@ -1481,6 +1509,8 @@ def _fold_sites(op, a, b):
         "cond-value": [["sig", "o", P(["bin", "+", ["cond", ["cmp", ">", X, K(0)], E], Y])]],
         "func-arg": [["func", "f", [["Signal", "v"], ["int", "n"]], [], ["bin", "+", V("v"), V("n")]], ["sig", "o", P(["call", "f", [X, E]])]],
         "func-body": [["func", "g", [["Signal", "v"], ["int", "p"], ["int", "q"]], [], ["bin", "+", V("v"), ["bin", op, V("p"), V("q")] if op in ARITH else ["cmp", op, V("p"), V("q")]]], ["sig", "o", P(["call", "g", [X, K(a), K(b)]])]],
+        "func-body-shadowed": [["int", "p", K(a + 11)], ["int", "q", K(b - 5)], ["func", "g", [["Signal", "v"], ["int", "p"], ["int", "q"]], [], ["bin", "+", V("v"), ["bin", op, V("p"), V("q")] if op in ARITH else ["cmp", op, V("p"), V("q")]]], ["sig", "o", P(["call", "g", [X, K(a), K(b)]])], ["sig", "o2", ["proj", ["bin", "+", Y, V("p")], "signal-Y"]]],
+        "func-in-loop-shadowed": [["func", "g", [["Signal", "v"], ["int", "i"]], [], ["bin", "+", V("v"), ["bin", op, V("i"), K(b)] if op in ARITH else ["cmp", op, V("i"), K(b)]]], ["for", "i", ["list", [a + 100]], [lamp, ["enable", "l", ["cmp", ">", ["call", "g", [X, K(a)]], K(0)]]]]],
         "loop-iter": [["for", "i", ["list", [a]], [lamp, ["enable", "l", ["cmp", ">", X, ["bin", op, V("i"), K(b)] if op in ARITH else ["cmp", op, V("i"), K(b)]]]]]],
         "enable": [lamp, ["enable", "l", ["cmp", ">", X, E]]],
         "coordinate": [["place", "l", "small-lamp", ["bin", "+", K(0), ["bin", "%", E, K(7)]] if op in ARITH else K(0), K(0), None], ["enable", "l", ["cmp", ">", X, K(1)]]],
@@ -1497,6 +1527,13 @@ def _fold_sites(op, a, b):
 def corpus_c11(tier):
     ins = [["input", "x", "signal-A", 10007], ["input", "y", "signal-B", 10009]]
     cases = []
+    # constants whose value is exactly 0 (or negative) as decider output / literal, supplied in several forms
+    X, Y = V("x"), V("y")
+    for nm, pre, kexpr in (("lit0", [], K(0)), ("intvar0", [["int", "k", K(0)]], V("k")), ("computed0", [["int", "k", ["bin", "-", K(5), K(5)]]], V("k")), ("litneg", [], K(-1)), ("lit5", [], K(5))):
+        cases.append({"id": f"fold-zero-cond-{nm}", "family": "fold", "stmts": ins + pre + [["sig", "o", ["proj", ["bin", "+", ["cond", ["cmp", ">", X, K(3)], kexpr], Y], "signal-X"]]], "kind": "stateless", "params": {"places": True}})
+        cases.append({"id": f"fold-zero-cond-compound-{nm}", "family": "fold", "stmts": ins + pre + [["sig", "o", ["proj", ["bin", "+", ["cond", ["and", ["cmp", ">", X, K(3)], ["cmp", "<", Y, K(9)]], kexpr], Y], "signal-X"]]], "kind": "stateless", "params": {"places": True}})
+    cases.append({"id": "fold-zero-loop-iter-output", "family": "fold", "stmts": ins + [["for", "i", ["range", 0, 3, None], [["place", "l", "small-lamp", V("i"), K(0), None], ["enable", "l", ["cmp", ">", ["bin", "+", ["cond", ["cmp", ">", X, V("i")], V("i")], Y], K(0)]]]]], "kind": "stateless", "params": {"places": True}})
+    cases.append({"id": "fold-zero-bundle-filter-const", "family": "fold", "stmts": ins + [["bun", "b", ["bundle", [X, Y]]], ["bun", "r", ["cond", ["cmp", ">", V("b"), K(3)], K(0)]], ["bun", "r5", ["cond", ["cmp", ">", V("b"), K(3)], K(5)]]], "kind": "stateless", "params": {"places": True}})
     for op, pairs in FOLD_PAIRS.items():
         if tier == "quick":
             pairs = pairs[:3] if op in ARITH else pairs[:1]
@@ -1538,6 +1575,9 @@ def c07_programs():
                                   ["mem", "k", "signal-K"], ["write", "k", ["bin", "+", ["read", "k"], K(1)], None], ["sig", "r1", ["read", "k"]]], {"K": 3}),
         "modcounter": (ins3[:1] + [["mem", "m", "signal-A"], ["write", "m", ["bin", "%", ["bin", "+", ["read", "m"], A], K(10)], None], ["sig", "out", ["bin", "+", ["read", "m"], K(0)]],
                                     ["mem", "k", "signal-K"], ["write", "k", ["bin", "%", ["bin", "+", ["read", "k"], K(1)], K(7)], None], ["sig", "r1", ["read", "k"]]], {"K": 3}),
+        "triangles": (ins3 + [["sig", "x1", P(["bin", "*", A, K(2)], "signal-P")], ["sig", "y1", P(["bin", "+", A, V("x1")], "signal-X")],
+                               ["sig", "x2", P(["bin", "+", B, K(7)], "signal-Q")], ["sig", "y2", P(["bin", "*", V("x2"), B], "signal-Y")],
+                               ["sig", "x3", ["cmp", ">", C, K(3)]], ["sig", "y3", P(["bin", "+", ["bin", "*", V("x3"), K(10)], C], "signal-Z")]], {}),
         "far": (ins3[:2] + [["place", "l0", "small-lamp", K(25), K(0), None], ["enable", "l0", ["cmp", ">", A, K(5)]], ["place", "l1", "small-lamp", K(-20), K(0), None], ["enable", "l1", ["cmp", ">", ["bin", "+", A, B], K(7)]], ["sig", "o", P(["bin", "-", A, B])]], {}),
     }
     return progs
@@ -1572,7 +1612,7 @@ def corpus_c07(tier):
     progs = c07_programs()
     names = list(progs)
     if tier == "quick":
-        names = ["arith", "cond-same-type", "bundle", "entities", "memory", "counter2", "modcounter", "far"]
+        names = ["arith", "cond-same-type", "bundle", "entities", "memory", "counter2", "modcounter", "triangles", "far"]
     for pn in names:
         stmts, params = progs[pn]
         for ci, cell in enumerate(c07_cells(tier)):
@@ -1629,6 +1669,14 @@ def fam_layout_fixed():
                                       ["place", "blk", "assembling-machine-1", K(7), K(-1), None], ["place", "blk2", "train-stop", K(16), K(-1), None], ["place", "blk3", "small-lamp", K(-7), K(0), None]])
     add("memory-adversarial", [["mem", "m", "signal-M"], ["write", "m", P(["bin", "*", A, K(2)], "signal-M"), ["cmp", ">", B, K(0)]], ["sig", "r0", ["read", "m"]]], K=3, adversarial=True)
     add("latch-adversarial", [["mem", "m", "signal-L"], ["latch", "m", K(7), ["cmp", ">", A, K(20)], ["cmp", ">", B, K(80)], "sr"], ["sig", "r0", ["read", "m"]]], K=3, adversarial=True)
+    for nm, rs in (("zero", ["cmp", "==", V("lvl"), K(0)]), ("ten", ["cmp", "<=", V("lvl"), K(10)])):
+        add(f"latch-typed-threshold-{nm}-far", [["place", "ch", "steel-chest", K(0), K(0), None], ["bun", "co", ["out", "ch"]], ["sig", "lvl", ["sel", V("co"), "iron-plate"]], ["mem", "m", "signal-L"],
+                                               ["latch", "m", K(1), ["cmp", ">", V("lvl"), K(100)], rs, "sr"], ["place", "l", "small-lamp", K(30), K(0), None], ["enable", "l", ["cmp", ">", ["read", "m"], K(0)]]], ref_check=False)
+        add(f"latch-input-threshold-{nm}-far", [["mem", "m", "signal-L"], ["latch", "m", K(1), ["cmp", ">", A, K(100)], ["cmp", "==", A, K(0)] if nm == "zero" else ["cmp", "<=", A, K(10)], "sr"],
+                                               ["place", "l0", "small-lamp", K(-15), K(0), None], ["enable", "l0", ["cmp", ">", A, K(5)]], ["place", "l", "small-lamp", K(30), K(0), None], ["enable", "l", ["cmp", ">", ["read", "m"], K(0)]]], ref_check=False)
+    for d in (0, 4, 8, 12):
+        add(f"directions-{d}", [["place", "tk", "storage-tank", K(0), K(0), None], ["place", "pm", "pump", K(1), K(3), {"direction": d}], ["place", "pm2", "pump", K(4), K(0), {"direction": d}], ["place", "ins", "inserter", K(6), K(3), {"direction": d}],
+                                ["place", "l", "small-lamp", K(3), K(3), None], ["enable", "l", ["cmp", ">", A, K(1)]]])
     add("memory-far-reader", [["mem", "m", "signal-M"], ["write", "m", P(["bin", "*", A, K(2)], "signal-M"), ["cmp", ">", B, K(0)]], ["place", "l", "small-lamp", K(30), K(0), None], ["enable", "l", ["cmp", ">", ["read", "m"], K(5)]], ["sig", "r0", ["read", "m"]]], K=3)
     add("latch-multiplier-far", [["mem", "m", "signal-L"], ["latch", "m", K(7), ["cmp", "<", A, K(20)], ["cmp", ">=", A, K(80)], "sr"], ["place", "l", "small-lamp", K(-25), K(3), None], ["enable", "l", ["cmp", ">", ["read", "m"], K(0)]], ["sig", "r0", ["read", "m"]]], K=3)
     body = [["sig", "m", ["bin", "*", A, K(3)]]]
@@ -1698,6 +1746,8 @@ def fam_places_fixed():
     add("multi-tile", lamp("t0", K(4), K(4), ["cmp", ">", A, K(3)], proto="train-stop") + lamp("as", K(8), K(4), ["cmp", ">", B, K(3)], proto="assembling-machine-1") + lamp("tk", K(12), K(4), proto="storage-tank") + lamp("rb", K(16), K(4), proto="roboport") + lamp("pm", K(21), K(4), proto="pump"))
     add("multi-tile-negative", lamp("t0", K(-6), K(-6), ["cmp", ">", A, K(3)], proto="train-stop") + lamp("as", K(-12), K(2), ["cmp", ">", B, K(3)], proto="assembling-machine-1") + lamp("tk", K(-3), K(-9), proto="storage-tank") + lamp("l", K(-7), K(1), A))
     add("unwired", lamp("c0", K(0), K(0), proto="steel-chest") + lamp("c1", K(1), K(0), proto="steel-chest") + lamp("b0", K(0), K(2), proto="transport-belt") + lamp("b1", K(1), K(2), proto="transport-belt") + lamp("p", K(5), K(5), proto="medium-electric-pole"))
+    for pt, proto in (("small", "small-electric-pole"), ("medium", "medium-electric-pole"), ("big", "big-electric-pole"), ("substation", "substation")):
+        add(f"user-pole-{pt}", lamp("l0", K(0), K(0), A) + lamp("up", K(25), K(12), proto=proto) + lamp("up2", K(-14), K(-9), proto=proto) + lamp("up3", K(3), K(1), proto=proto))
     add("props", lamp("l", K(2), K(3), A, props={"always_on": 1, "use_colors": 1}) + lamp("t", K(-4), K(6), props={"station": '"Iron Pickup"'}, proto="train-stop") + lamp("i", K(0), K(0), A, proto="inserter", props={"direction": 4}) + lamp("am", K(6), K(6), props={"recipe": '"iron-gear-wheel"'}, proto="assembling-machine-1"))
     add("adjacent-to-origin", lamp("l0", K(0), K(0), A) + lamp("l1", K(1), K(0), B) + lamp("l2", K(0), K(1), ["cmp", ">", ["bin", "+", A, B], K(3)]) + [["sig", "o", ["proj", ["bin", "*", A, B], "signal-X"]]])
     add("far-corners", lamp("l0", K(-40), K(-40), A) + lamp("l1", K(40), K(40), A) + lamp("l2", K(-40), K(40), B) + lamp("l3", K(40), K(-40), B))
